@@ -203,6 +203,9 @@ func init() {
 				for k := range full.Outcomes {
 					if _, ok := red.Outcomes[k]; !ok {
 						missing++
+						if t, ok := outcomeText[k]; ok {
+							fmt.Println("   missing in the reduced exploration:", t)
+						}
 					}
 				}
 				verdict := "contained"
